@@ -58,6 +58,11 @@ add('C15', 'exploration',
     'Reference is the package\'s own evaluator on a fresh object (decides path/history independence, not absolute correctness, which is C14); calendar seam is a datetime shim bound into ahrs.utils.wmm at import; no I/O fault injected.',
     'deterministic simulation: operation histories against a reference model, calendar clock seam with jump faults', 'DESIGN.md section 2 C15')
 
+add('C12', 'fault_enumeration',
+    'Partial claim (the part with a fault pattern in it): a recorder stores the attitude sequence of a turning body through a lossy link with loss (row -> NaN) and signflip (row -> -row) faults; every interior loss mask for records of up to 10 (quick) / 12 (thorough) rows x 4 spin rates x 5 sign-flip patterns is enumerated, plus seeded long records; the real QuaternionArray.slerp_nan / remove_jumps repair is compared with a reference shortest-arc constant-speed SLERP (1e-5 rad), valid rows must come back bit-identical up to sign, loss-free records pass through, and after remove_jumps no sign jump remains.',
+    'Arbitrary endpoint pairs / weight vectors of the free slerp() function are input generation and not claimed; first and last rows are never lost; spin below pi rad per tick.',
+    'deterministic simulation: enumerated loss/signflip fault masks on a recorder link, reference-model comparison', 'DESIGN.md section 2 C12')
+
 def build():
     m = {
         'version': 1,
